@@ -14,7 +14,8 @@ from core import Outcome
 PROP = "C05"
 
 # operations documented as modifying their receiver (and nothing else)
-INPLACE = ["setitem_region", "setitem_subs", "setitem_linear", "k_normalize", "k_normalize_sort", "k_arrange",
+INPLACE = ["setitem_region", "setitem_subs", "setitem_linear", "setitem_block_offset", "setitem_block_all", "setitem_sp_offset",
+           "setitem_sp_all", "k_normalize", "k_normalize_sort", "k_arrange",
            "k_arrange_perm", "k_fixsigns", "k_fixsigns_ref", "k_redistribute", "k_update", "sptenmat_setitem",
            "tenmat_setitem"]
 # construction with copy=False / documented no-copy switches
@@ -329,6 +330,13 @@ def ops() -> Dict[str, Tuple[Tuple[str, ...], Callable]]:
     add("setitem_region", DS, lambda o, m: _set(o, tuple([slice(None)] * (N(o) - 1) + [0]), 5.0))
     add("setitem_subs", DS, lambda o, m: _set(o, m.idx(np.zeros((1, N(o)), dtype=int)), 7.0))
     add("setitem_linear", ("dense",), lambda o, m: _set(o, m.idx([-1]), 7.0))
+    # a tensor-valued right-hand side: the value operand must stay unchanged and must not be shared with the receiver
+    off = lambda o: tuple(slice(1, s) if k == 1 else slice(0, s) for k, s in enumerate(o.shape))
+    offshape = lambda o: tuple(s - 1 if k == 1 else s for k, s in enumerate(o.shape))
+    add("setitem_block_offset", ("dense",), lambda o, m: _set(o, off(o), m.dense(offshape(o))))
+    add("setitem_block_all", ("dense",), lambda o, m: _set(o, tuple(slice(None) for _ in o.shape), m.dense(o.shape)))
+    add("setitem_sp_offset", ("sparse",), lambda o, m: _set(o, off(o), m.sparse(offshape(o))))
+    add("setitem_sp_all", ("sparse",), lambda o, m: _set(o, tuple(slice(0, s) for s in o.shape), m.sparse(o.shape)))
     add("k_normalize", ("ktensor",), lambda o, m: o.normalize())
     add("k_normalize_sort", ("ktensor",), lambda o, m: o.normalize(sort=True, weight_factor=0))
     add("k_arrange", ("ktensor",), lambda o, m: o.arrange())
@@ -492,7 +500,7 @@ def replay(b: dict) -> dict:
         if r["st"] == "raised":
             bad = bool(r["changed"]) and not (ev["op"] in INPLACE and set(r["changed"]) <= {ev["args"]["recv"]})
         elif ev["op"] in INPLACE:
-            bad = not set(r["changed"]) <= {ev["args"]["recv"]}
+            bad = not set(r["changed"]) <= {ev["args"]["recv"]} or bool(r["aliased"])
         else:
             bad = bool(r["changed"]) or (bool(r["aliased"]) and ev["op"] not in SHARING)
         if bad:
